@@ -53,6 +53,18 @@ Definition state_audit_live (inventory : list state_item) : bool :=
    its key.  The audit above (and the per-Checker caches: type_object_cache, known_argspecs,
    generic_bases_cache, _protocol_positive_cache; the per-file _argspec_to_retval) was read
    for exactly these keys; a changed key expression or a new cache site changes the list. *)
+(* Per-object memos added by /repo 4178e01 (and the older `inverted` of Constraint.invert) appear as
+   "attribute <name>" rows: `x.__dict__.get("<name>")` / `object.__setattr__(x, "<name>", v)`.
+     _compound_cache  on a one_of/all_of Constraint: apply_to_value per value OBJECT (key id(value), re-checked
+                      with `entry[0] is value`; the entry keeps the value alive, so ids are not reused)
+     _applied         on a compound constraint: tuple(apply()); depends only on the object's immutable fields
+     _inverted        on a compound constraint: invert(); ALSO written on the result (`cached._inverted =
+                      constraint`): a two-way memo, see Proofs/DetMemo.v two_way_memo_*
+   The memo lives and dies with the object.  Constraint objects are created per visited AST node and per
+   value; the only constraint object shared by all checks is NULL_CONSTRAINT, whose invert()/apply() do not
+   read a memo (a compound whose inverse collapses to NULL_CONSTRAINT leaves a dangling, never read
+   `_inverted` on it).  Hence key = object identity determines the result (C10_keyed_memo_history_independent
+   with an injective key). *)
 Definition pinned_cache_keys : list cache_key := [
   CacheKey "arg_spec.py" "ArgSpecCache.__init__" "self.known_argspecs" "store" "obj";
   CacheKey "arg_spec.py" "ArgSpecCache._cached_get_argspec" "self.known_argspecs" "in" "obj";
@@ -68,10 +80,16 @@ Definition pinned_cache_keys : list cache_key := [
   CacheKey "name_check_visitor.py" "NameCheckVisitor._set_argspec_to_retval" "self._argspec_to_retval" "store" "id(sig)";
   CacheKey "name_check_visitor.py" "NameCheckVisitor.get_local_return_value" "self._argspec_to_retval" "get" "id(sig)";
   CacheKey "name_check_visitor.py" "NameCheckVisitor.visit" "self._method_cache" "load" "node_type := type(node)";
-  CacheKey "stacked_scopes.py" "FunctionScope._resolve_value" "val.resolution_cache" "in" "key := replace(ctx, fallback_value=None)";
-  CacheKey "stacked_scopes.py" "FunctionScope._resolve_value" "val.resolution_cache" "load" "key := replace(ctx, fallback_value=None)";
-  CacheKey "stacked_scopes.py" "FunctionScope._resolve_value" "val.resolution_cache" "store" "key := replace(ctx, fallback_value=None)";
-  CacheKey "stacked_scopes.py" "_LookupContext" "<dataclass fields>" "fields" "varname, fallback_value, node, state";
+  CacheKey "stacked_scopes.py" "Constraint._apply_compound" "attribute _compound_cache" "get" "object self";
+  CacheKey "stacked_scopes.py" "Constraint._apply_compound" "attribute _compound_cache" "store" "object self";
+  CacheKey "stacked_scopes.py" "Constraint._apply_compound" "cache" "get" "id(value)";
+  CacheKey "stacked_scopes.py" "Constraint._apply_compound" "cache" "store" "id(value)";
+  CacheKey "stacked_scopes.py" "Constraint.invert" "attribute inverted" "store" "object self";
+  CacheKey "stacked_scopes.py" "_memoized_apply" "attribute _applied" "get" "object constraint";
+  CacheKey "stacked_scopes.py" "_memoized_apply" "attribute _applied" "store" "object constraint";
+  CacheKey "stacked_scopes.py" "_memoized_invert" "attribute _inverted" "get" "object constraint";
+  CacheKey "stacked_scopes.py" "_memoized_invert" "attribute _inverted" "store" "object cached";
+  CacheKey "stacked_scopes.py" "_memoized_invert" "attribute _inverted" "store" "object constraint";
   CacheKey "type_object.py" "TypeObject.can_assign" "self._protocol_positive_cache" "get" "other_val";
   CacheKey "type_object.py" "TypeObject.can_assign" "self._protocol_positive_cache" "store" "other_val"
 ]%list.
@@ -82,3 +100,16 @@ Fixpoint keys_eqb (a b : list cache_key) : bool :=
   | x :: a', y :: b' => key_eqb x y && keys_eqb a' b'
   | _, _ => false
   end%list.
+
+(* The key of the process-global resolution_cache, field by field (regenerated as
+   Gen.State.resolution_key_fields): the result of a resolution depends on the variable, the
+   use node and the visitor state, so these three must be taken over unchanged; fallback_value
+   may be blanked (a value with a fallback is never the shared sentinel's entry). *)
+Definition field_status (fs : list (string * string)) (f : string) : string :=
+  match find (fun p => String.eqb (fst p) f) fs with
+  | Some p => snd p
+  | None => "missing"
+  end.
+Definition resolution_key_ok (fs : list (string * string)) : bool :=
+  String.eqb (field_status fs "varname") "kept" && String.eqb (field_status fs "node") "kept"
+  && String.eqb (field_status fs "state") "kept".
